@@ -99,10 +99,12 @@ pub fn boundary(src: &mut Src, around: &[u64]) -> u64 {
 }
 
 fn payload_len(src: &mut Src) -> usize {
-    match src.weighted(&[6, 4, 2]) {
+    match src.weighted(&[6, 4, 2, 1]) {
         0 => 1200,
         1 => src.pick(&[0usize, 1, 1199, 1200, 1201]),
-        _ => src.below(1300),
+        2 => src.below(1300),
+        // far beyond a slice: whatever a UDP datagram can carry (a transport may hand over more than the netcode limit)
+        _ => src.pick(&[1300usize, 5000, 1301, 20_000, 65_000]),
     }
 }
 
@@ -237,9 +239,10 @@ pub fn gen_hostile(src: &mut Src, w: &World, d: Dir) -> (Vec<u8>, Hostile) {
                 if reliable {
                     w_.varint(id);
                 }
-                let actual = match src.below(3) {
-                    0 => src.below(20),
-                    1 => src.pick(&[0usize, 1, 1199, 1200, 1201]),
+                let actual = match src.below(16) {
+                    0..=4 => src.below(20),
+                    5..=9 => src.pick(&[0usize, 1, 1199, 1200, 1201]),
+                    10 => src.pick(&[5000usize, 1300, 30_000]),
                     _ => src.below(400),
                 };
                 len = if src.chance(30) { boundary(src, &[actual as u64]) } else { actual as u64 };
